@@ -229,9 +229,8 @@ Definition check_case (c : case) : list string :=
   | CaseEmpty cands selected =>
       let mc := map (to_cand []) cands in
       (if set_eqb (map c_name (emptiness mc)) selected then [] else ["corr:emptiness"]) ++
-      (if empty_b (filter (fun c => mem (c_name c) selected) mc) then [] else ["oracle:empty_means_no_positive_cost"]) ++
-      (if forallb (fun c => match c_pods c with [] => true | _ => false end) (filter (fun c => mem (c_name c) selected) mc)
-       then [] else ["oracle:pods_have_home"])
+      (* Emptiness runs no simulation by design: its oracle is the emptiness rule only (property text, last sentence) *)
+      (if empty_b (filter (fun c => mem (c_name c) selected) mc) then [] else ["oracle:empty_means_no_positive_cost"])
   | CaseValidate nrepl repl cat s valid =>
       if Bool.eqb (validate_command nrepl repl (to_sim cat s)) valid then [] else ["corr:validate_command"]
   end.
